@@ -1,7 +1,8 @@
 #!/bin/bash
 # runseeded.sh [pattern] [workers] : run every kept seeded change (matching pattern) against the quick check of its
 # property, in scratch worktrees of /repo under /tmp (VERIF_ALT_REPO mode of ./check: /repo, the committed evidence and
-# the replays directory are not touched). One line per change: DETECTED / MISSED / NOAPPLY. Worktrees are removed at the end.
+# the replays directory are not touched). meta.json may name another property's check in "check_with" (the change was
+# written against one property and is caught by the check of another) or "none" (kept, confirmed, and not detected). One line per change: DETECTED / MISSED / NOAPPLY. Worktrees are removed at the end.
 cd /verif
 pat=${1:-.}; workers=${2:-2}
 ids=$(ls seeded | grep -E "$pat")
@@ -13,7 +14,8 @@ run_worker() {
   i=0
   for id in $ids; do
     i=$((i+1)); [ $((i % workers)) -eq $w ] || continue
-    prop=${id%%-*}
+    prop=$(python3 -c "import json;print(json.load(open('/verif/seeded/$id/meta.json')).get('check_with','${id%%-*}'))")
+    if [ "$prop" = none ]; then echo "RECORDED-AS-NOT-DETECTED $id"; continue; fi
     git -C $wt checkout -q -- . ; git -C $wt clean -fdq
     if ! git -C $wt apply --check /verif/seeded/$id/patch.diff 2>/dev/null; then echo "NOAPPLY  $id"; continue; fi
     git -C $wt apply /verif/seeded/$id/patch.diff
